@@ -64,6 +64,12 @@ CHECKS = {
  "C12": dict(cat="exploration", ref="7 C12", tech="kernel encoding of untrusted strings, struct sockaddr and derived-field rules written in TLA+ (AuditRecord.tla); TLC checks both that the harness wrote each value the way the kernel does and that Data() returned the expected value; table sweeps are exhaustive",
              text="Random values (safe printable, hex-looking, with spaces, arbitrary bytes, quotes/equals/backslashes inside) are encoded by the harness, checked against EncodeUntrusted by TLC, placed in exe/cwd/PATH name/proctitle/USER_CMD cmd/TTY data/acct/EXECVE a0..aN records, and Data() must return the original (NUL->space for proctitle); plain tokens must be unchanged, exactly the four placeholders dropped, result/unset/errno/arch rules hold, IPv4/IPv6/unix socket addresses decode to the bytes written; every errno 1..133 and every (arch, syscall number) of the exported tables is swept.",
              note="Values respect the property's stated exclusions; values nested inside msg='...' contain no single quote when quoted. Syscall names are compared with the exported table itself (the property's 'published tables'); that the tables are functions is C20."),
+ "C09": dict(cat="exploration", ref="7 C09", tech="conservation/routing, identity and file-summary predicates written in TLA+ (Coalesce.tla); TLC judges flattened real events against the Data() snapshots of their records; exhaustive st_mode sweep",
+             text="Thousands of seeded groups (single records across the categorised type ranges; SYSCALL groups with any subset and order of CWD, PATH x0..3, EXECVE, SOCKADDR, PROCTITLE, AVC and other records, an AVC ahead of the SYSCALL, trailing EOE, colliding keys drawn from names real records share) are coalesced by the real code; TLC checks identity = first record, the refusals the statement names, that every key/value of every record is in a location the routing table allows or is named by a warning (only SYSCALL items may vanish), and that File mirrors a PATH record. All 65536 st_mode values are swept on a single-PATH open event: File.Mode = octal(mode & 07777) and Object.Type must agree with S_IFMT.",
+             note="One known finding (mode-type-cast, known_findings.json): object type is 'file' for every non-regular mode; it is matched structurally (kind=objtype, got=file, expected!=file), any other mismatch is still a violation. Domain limits as in the evidence file's assumptions."),
+ "C15": dict(cat="model_checking", ref="7 C15", tech="Isolation.tla (pool of groups and events, Coalesce/Resolve/Inspect) checked by TLC against IsolationMonitor; every operation order replayed on real message groups with digests of every message and event after every step; random pools; -race stress",
+             text="TLC enumerates all operation orders up to 4 (quick) / 6 (thorough) over two groups and checks the monitor (and rejects the seeded 'Coalesce mutates its input' model); each order is replayed on real groups (golden inputs, generated groups, arbitrary text): after every operation the digest of every message's Data/Tags/ToMapStr and of every event returned so far (JSON + sorted warnings) is logged, and TLC requires that no message ever changes, no event changes except the one being resolved, and a repeated Coalesce equals the first. Concurrent coalescing/resolving of different events runs under the race detector; panics anywhere are flagged.",
+             note="Digests are SHA-1 prefixes compared for equality by TLC. The model abstracts a coalesce as 'reads g, creates e'. Race freedom is observed by the Go race detector, not proved."),
 }
 
 NOT_YET = {
